@@ -177,6 +177,7 @@ func runFaultSet(t *testing.T, tape *Tape, w *World, variant string, steps int, 
 	}
 	S.on = true
 	c := &conc{t: tape}
+	var listViol *Violation
 	ncallers := 1 + tape.Intn(6)
 	for ci := 0; ci < ncallers; ci++ {
 		ci := ci
@@ -186,7 +187,10 @@ func runFaultSet(t *testing.T, tape *Tape, w *World, variant string, steps int, 
 		}
 		var plan []planned
 		for k := 0; k < nops; k++ {
-			if tape.Intn(5) == 0 {
+			if tape.Intn(7) == 0 {
+				// a listing in the middle of everything: never shows a used-up description
+				plan = append(plan, planned{fsIn{kind: "list"}})
+			} else if tape.Intn(5) == 0 {
 				d := mkDesc()
 				added[d.id] = d
 				plan = append(plan, planned{fsIn{kind: "add", desc: d}})
@@ -197,6 +201,17 @@ func runFaultSet(t *testing.T, tape *Tape, w *World, variant string, steps int, 
 		c.spawn(fmt.Sprintf("caller%d", ci), func(ctx context.Context) {
 			for _, p := range plan {
 				S.Yield(ctx, "op")
+				if p.in.kind == "list" {
+					for _, l := range set.Current() {
+						for _, d := range l {
+							if d.Count <= 0 && listViol == nil {
+								listViol = viol("C18", "listing", "a listing taken while calls are in progress shows fault #%s (%s) with %d invocations left: an exhausted fault must not be listed", d.FaultDescription, d.Operation, d.Count)
+							}
+						}
+					}
+					stats["fs_listed_midway"]++
+					continue
+				}
 				clock++
 				call := clock
 				o := fsOut{-1}
@@ -228,6 +243,10 @@ func runFaultSet(t *testing.T, tape *Tape, w *World, variant string, steps int, 
 		S.Resume(keys[tape.Intn(len(keys))])
 	}
 	c.finish()
+	if listViol != nil {
+		out.v = listViol
+		return
+	}
 	stats["fs_ops"] += len(ops)
 	stats["conc_steps"] += c.steps
 	res := porcupine.CheckOperationsTimeout(fsModel, ops, 20*time.Second)
